@@ -162,6 +162,10 @@ class SpawnBase(object):
     def _set_buffer(self, value):
         self._buffer = self.buffer_type()
         self._buffer.write(value)
+        # The assigned value replaces all pending text, including the
+        # untrimmed copy that `before` is built from.
+        self._before = self.buffer_type()
+        self._before.write(value)
 
     # This property is provided for backwards compatibility (self.buffer used
     # to be a string/bytes object)
